@@ -1370,7 +1370,26 @@ func (sc *serverConn) rejectBlock(strm *Stream, fr *FrameHeader, b []byte, reaso
 	strm.previousHeaderBytes = append(strm.previousHeaderBytes[:0], carry...)
 	strm.blockFields = fields
 
+	if err := sc.checkCarried(len(carry)); err != nil {
+		return err
+	}
+
 	return reason
+}
+
+// checkCarried bounds the bytes of a field that are kept from one frame of a
+// header block to the next. The size limit on the header list counts decoded
+// fields, and a field that never ends is never decoded: fed in CONTINUATION
+// frames it would grow the buffer for as long as the peer liked. An octet of a
+// field takes at most 30 bits on the wire (the longest Huffman code), so a
+// field whose encoding is more than four times the limit cannot fit the limit
+// however it decodes.
+func (sc *serverConn) checkCarried(n int) error {
+	if sc.maxHeaderList > 0 && n > 4*sc.maxHeaderList {
+		return NewGoAwayError(EnhanceYourCalm, "header field exceeds the maximum size")
+	}
+
+	return nil
 }
 
 // discardFrame takes in a frame that was on its way to a stream this side has
@@ -1393,6 +1412,10 @@ func (sc *serverConn) discardFrame(fr *FrameHeader) error {
 		b := append(d.carry, fr.Body().(FrameWithHeaders).Headers()...)
 
 		carry, fields, err := sc.skipFields(b, d.fields, last)
+		if err == nil {
+			err = sc.checkCarried(len(carry))
+		}
+
 		if err != nil {
 			return err
 		}
@@ -1462,7 +1485,7 @@ func (sc *serverConn) handleHeaderFrame(strm *Stream, fr *FrameHeader) error {
 			// CONTINUATION. If END_HEADERS is set, the block is complete and a
 			// truncated field is a decoding error.
 			if errors.Is(err, ErrUnexpectedSize) && len(pb) > 0 && !fr.Flags().Has(FlagEndHeaders) {
-				err = nil
+				err = sc.checkCarried(len(pb))
 				strm.previousHeaderBytes = append(strm.previousHeaderBytes, pb...)
 			} else {
 				err = NewGoAwayError(CompressionError, err.Error())
